@@ -655,4 +655,29 @@ theorem ninja_rejects_pipe (s : Str) (h : NoNl s) (hp : '|' ∈ s) : ninjaQuote 
   have hpc : s.contains '|' = true := by simpa [List.contains_iff_mem] using hp
   rw [if_neg (by rw [hn]; exact Bool.false_ne_true), if_pos (by rw [hpc]; rfl)]
 
+/-! ### `meson test`: the last hop before the test process -/
+
+/-- **test_cmd_independent**: the command of runner `i` is a function of the invocation's wrapper and
+`--test-args` and of test `i` alone — it does not depend on which other tests run, how many, or in which
+order they were constructed (the implementation must match this for every `i`: a wrapper list shared
+and extended in place would not) -/
+theorem test_cmd_independent (wrapper extra : List Str) (tests : List (List Str × List Str)) (i : Nat)
+    (hi : i < tests.length) :
+    (runnerCmds wrapper extra tests)[i]? = some (testCmd wrapper tests[i].1 tests[i].2 extra) := by
+  simp [runnerCmds, List.getElem?_map, List.getElem?_eq_getElem hi]
+
+/-- the test's own arguments arrive unchanged — same count, same order — right after the wrapper and
+the program, followed only by `--test-args` -/
+theorem test_args_arrive (wrapper prog args extra : List Str) :
+    (testCmd wrapper prog args extra).drop (wrapper.length + prog.length) = args ++ extra ∧
+    (testCmd wrapper prog args extra).take (wrapper.length + prog.length) = wrapper ++ prog ∧
+    (testCmd wrapper prog args extra).length = wrapper.length + prog.length + args.length + extra.length := by
+  have e : testCmd wrapper prog args extra = (wrapper ++ prog) ++ (args ++ extra) := by
+    simp [testCmd, List.append_assoc]
+  have l : wrapper.length + prog.length = (wrapper ++ prog).length := by simp
+  refine ⟨?_, ?_, ?_⟩
+  · rw [e, l, List.drop_left]
+  · rw [e, l, List.take_left]
+  · simp [testCmd]; omega
+
 end MesonModel.Props.C03
